@@ -67,6 +67,7 @@ func (p Parser) HandleRawSQLQuery(sql string) (normalizedQuery, redactedQuery st
 
 	// redact and mask VALUES
 	Normalize(stmt, bv, ValueMask)
+	maskLiterals(stmt, ValueMask)
 
 	return normalizedQ, String(stmt), outputStmt, nil
 }
